@@ -359,6 +359,54 @@ theorem C04_bare_lookup_iff (s : Schema) (an : String) (en : String) :
   have : s.entities.length ≤ s.decls.length := List.length_filterMap_le _ _
   omega
 
+/-- **`operand.field`** (`EXPresolve_op_dot`) reports no ERROR ⇔ the operand's type knows the field: an entity connected to it
+    declares it, the enumeration has the item, a member of the select knows it — or every member of the select is an enumeration
+    (then only the default-silent CASE_SKIP_LABEL warning); never for an aggregate or a simple type -/
+theorem C04_dot_operand_iff (p : String) (s : Schema) (fuel : Nat) (r : Rule) (field : String) (t : TypeRef) :
+    hasError (operandDiags p s fuel r field t) = false ↔ OperandWF s fuel field t :=
+  operand_noError_iff p s fuel r field t
+
+/-- **an undefined attribute on a SELECT-typed operand is an ERROR ⇔ some member of the select is not an enumeration** -/
+theorem C04_undefined_attr_on_select_iff (p : String) (s : Schema) (fuel : Nat) (r : Rule) (field : String) (t : TypeRef)
+    (items : List (String × Nat)) (hk : operandKind s fuel t = .select items) (hno : selectHas s field fuel items = false) :
+    hasError (operandDiags p s fuel r field t) = true ↔ ∃ i ∈ items, isEnumType s fuel i.1 = false := by
+  -- the shape of the test in EXPresolve_op_dot, regenerated: a conjunction over the select's member list
+  have _shape : ResolveGen.dotAllEnumsIsConjunction = true := by decide
+  exact select_undefined_attr_iff p s fuel r field t items hk hno
+
+/-- hence: with at least one non-enumeration leaf anywhere below the select (through nested selects) it is an ERROR -/
+theorem C04_undefined_attr_on_select_with_nonenum_leaf (p : String) (s : Schema) (fuel : Nat) (r : Rule) (field : String)
+    (t : TypeRef) (items : List (String × Nat)) (hk : operandKind s fuel t = .select items)
+    (hno : selectHas s field fuel items = false) (hleaf : NonEnumLeaf s fuel items) :
+    hasError (operandDiags p s fuel r field t) = true :=
+  (select_undefined_attr_iff p s fuel r field t items hk hno).mpr (nonEnumLeaf_member hleaf)
+
+/-- … whatever the order of the member list: two select types whose member lists are permutations of each other get the same
+    verdict for an attribute neither knows -/
+theorem C04_undefined_attr_on_select_order_independent (p : String) (s : Schema) (fuel : Nat) (r : Rule) (field : String)
+    (t t' : TypeRef) (items items' : List (String × Nat)) (hp : items.Perm items')
+    (hk : operandKind s fuel t = .select items) (hk' : operandKind s fuel t' = .select items')
+    (hno : selectHas s field fuel items = false) (hno' : selectHas s field fuel items' = false) :
+    hasError (operandDiags p s fuel r field t) = hasError (operandDiags p s fuel r field t') := by
+  have h1 := select_undefined_attr_iff p s fuel r field t items hk hno
+  have h2 := select_undefined_attr_iff p s fuel r field t' items' hk' hno'
+  have hiff : (∃ i ∈ items, isEnumType s fuel i.1 = false) ↔ (∃ i ∈ items', isEnumType s fuel i.1 = false) := by
+    constructor
+    · rintro ⟨i, hi, hv⟩; exact ⟨i, hp.mem_iff.mp hi, hv⟩
+    · rintro ⟨i, hi, hv⟩; exact ⟨i, hp.mem_iff.mpr hi, hv⟩
+  cases ha : hasError (operandDiags p s fuel r field t) with
+  | true => exact (h2.mpr (hiff.mp (h1.mp ha))).symm
+  | false =>
+    cases hb : hasError (operandDiags p s fuel r field t') with
+    | false => rfl
+    | true => rw [h1.mpr (hiff.mpr (h2.mp hb))] at ha; cases ha
+
+/-- **a call with its argument list** reports no ERROR ⇔ the function exists, every argument resolves and — in a domain rule — one of
+    them refers to SELF or an attribute -/
+theorem C04_call_with_arguments_iff (p : String) (env : Env) (s : Schema) (fuel : Nat) (e : Entity) (r : Rule) (fn : String)
+    (args : List CallArg) : hasError (callWithDiags p env s fuel e r fn args) = false ↔ CallWithWF env s fuel e r fn args :=
+  callWith_noError_iff p env s fuel e r fn args
+
 /-- **function bodies, global RULEs, constants**: their expressions produce no ERROR ⇔ every call names a function and every
     bare identifier is a parameter / local variable or known to the schema scope -/
 theorem C04_algorithm_expressions_iff (path : String) (env : Env) (s : Schema) :
